@@ -226,8 +226,10 @@ class Gf180Walker(h.HierarchyWalker):
 
         mod = self.cap_module(params)
 
-        w = self.scale_param(params.w, 1000 * MILLI)
-        l = self.scale_param(params.l, 1000 * MILLI)
+        # Sizes which are not given take the PDK's defaults
+        defaults = GF180CapParams.default_instance()
+        w = self.scale_param(params.w, defaults.c_width)
+        l = self.scale_param(params.l, defaults.c_length)
 
         modparams = GF180CapParams(c_width=w, c_length=l, m=params.mult or 1)
 
